@@ -37,7 +37,7 @@ func genTree(r *Rand, maxNodes int) treeSpec {
 	dirs := []string{""}
 	for i := 0; i < n; i++ {
 		parent := dirs[r.Intn(len(dirs))]
-		name := poolNames[r.Intn(len(poolNames))]
+		name := poolName(r)
 		p := strings.TrimPrefix(parent+"/"+name, "/")
 		if used[p] || strings.Count(p, "/") >= 3 {
 			continue
